@@ -514,6 +514,21 @@ ssucc(struct es * E, const uint8_t * st, size_t len, void * cookie)
 		st_pack(nb, &t);
 		if (es_emit(E, nb, STLEN)) tr_set(&Q->T, E->n - 1, (uint32_t)idx, (uint32_t)k | (OP_STREAM << 24));
 	}
+	/*
+	 * One call that covers 256 or more whole blocks on a stream that has
+	 * already been used (the counter bytes above the lowest one change
+	 * inside a single bulk call and must be carried over to the code that
+	 * handles the following partial block): from every early position.
+	 */
+	if (s.pos > 0 && s.pos <= 48) {
+		static const uint64_t MK[] = { 4096, 4096 + 16, 4800 };
+		for (i = 0; i < 3; i++) {
+			if (region(s.pos + MK[i]) < 0) continue;
+			if (stream_edge(Q, &s, (size_t)MK[i], &t, idx, 0)) { E->transitions++; continue; }
+			st_pack(nb, &t);
+			if (es_emit(E, nb, STLEN)) tr_set(&Q->T, E->n - 1, (uint32_t)idx, (uint32_t)MK[i] | (OP_STREAM << 24));
+		}
+	}
 	for (j = 0; j < nR_init; j++) if (R_init[j] == s.pos) break;
 	if (j < nR_init)
 		for (ks = 0; ks < 3; ks++) for (i = 0; i < 2; i++) {
